@@ -410,7 +410,14 @@ class Producers:
             if m == "apply_naming_convention" and len(e["args"]) == 2:
                 return conv(self.expr(e["args"][0], f, env, stack, depth + 1), self.rule_text(e["args"][1], f, env))
             if m == "collect" and e["recv"].get("k") == "mcall" and e["recv"]["method"] == "map":
-                return self.char_map(e["recv"], f, env, stack, depth)
+                cm = self.char_map(e["recv"], f, env, stack, depth)
+                if cm != UNKNOWN:
+                    return cm
+            # text accumulated from an iterator chain: the elements are what the (innermost) mapping closure returns
+            if m in ("collect", "concat") or (m == "join" and e["args"] and lit_str(e["args"][0]) is not None):
+                return self.expr(e["recv"], f, env, stack, depth + 1)
+            if m in ("map", "filter_map", "flat_map", "and_then") and e["args"] and e["args"][0].get("k") == "closure":
+                return self.expr(e["args"][0]["body"], f, env, stack, depth + 1)
             if m == "or_insert" and e["args"]:
                 return self.expr(e["args"][0], f, env, stack, depth + 1)
             if recv == "self" and m.startswith("generate_"):
